@@ -78,7 +78,7 @@ def c10_task(arg):
         b.connect(a, window=h["window"], skip=h["skip"], delay=lo, delay_dist=TrainableDist.create(delay=dist_delay, min=lo, max=hi, interp="zoh"))
         return {"a": a, "b": b}, b
 
-    nodes, sup = mk(lo)
+    nodes, sup = mk((lo + hi) / 2)  # nominal delay != min: graphs must still be generated with the minimal delay
     ts_max = 12.0 / h["rb"] if h["rb"] <= 8 else 10.0 / h["rb"]
     graphs_raw = generate_graphs(nodes, ts_max=ts_max, rng=jax.random.PRNGKey(arg.get("seed", 0)), num_episodes=1)
     ep = graphs_to_py(graphs_raw)[0]
